@@ -1,5 +1,11 @@
 package models
 
+import (
+	"math/big"
+
+	ethtypes "github.com/ethereum/go-ethereum/core/types"
+)
+
 // Fixed external-chain (secp256k1) identities for the harness validators.
 // EthAddrs[i] is the address of the key EthKeysHex[i] (checked natively).
 var EthKeysHex = []string{
@@ -14,4 +20,15 @@ var EthAddrs = []string{
 	"0x07A6b95457d3115346A512b7458D6C43dBB7B39B",
 	"0x507f2C23277B725D3A63b52c958f55A500A3397A",
 	"0x23A7289eC2E06c8AD1fFFBe88718644fF6CB94a0",
+}
+
+// EthTx builds a remote-chain transaction carrying the given call data; the
+// nonce distinguishes otherwise identical transactions (different hash).
+func EthTx(nonce uint64, data []byte) *ethtypes.Transaction {
+	return ethtypes.NewTx(&ethtypes.LegacyTx{Nonce: nonce, Data: data, Gas: 21000, GasPrice: big.NewInt(1), Value: big.NewInt(0)})
+}
+
+// EthReceipt builds a receipt with the given status for a legacy transaction.
+func EthReceipt(status uint64) *ethtypes.Receipt {
+	return &ethtypes.Receipt{Type: ethtypes.LegacyTxType, Status: status, CumulativeGasUsed: 21000, Logs: []*ethtypes.Log{}}
 }
